@@ -20,6 +20,7 @@ from . import oracle as O
 KEY_CANCEL = 'bb:numrecs:cancelled-iput'
 KEY_BEGIN = 'bb:numrecs:begin-indep-unflushed'
 KEY_WAITMIX = 'bb:hang:wait_all-put-req-all-mixed'
+KEY_UNLINK = 'bb:reopen:shared-log-unlink-race'
 
 
 class Cfg:
@@ -136,7 +137,8 @@ class Program:
         self.indep = False
         self.seed = rng.below(100000)
         self.dview = [0] * self.np  # record count each rank sees under the default driver
-        self.bbearly = 0            # records of nonblocking puts that a collective flush completed before their wait
+        self.posted_list = []
+        self.posted = 0             # largest record count implied by any put posted so far and not cancelled
         self.bbextra = [0] * self.np    # recdimsize pollution by cancelled iputs (known finding)
         self.lag = False            # history of finding KEY_BEGIN is live
         self.expect_keys = set()
@@ -233,11 +235,6 @@ class Program:
             s.flushed = True
 
     def trigger(self, ranks):
-        if not self.indep:
-            for d in self.slots:
-                for sl in d.values():
-                    if sl.kind == 'put':
-                        self.bbearly = max(self.bbearly, sl.recs)
         if self.indep:
             for q in ranks:
                 self.flushed_rank(q)
@@ -468,6 +465,8 @@ class Program:
         self.ops.append('OIput %d %d %d %s' % (ln, q, sl, coq_req(v.vid, v.isrec, ELSIZE[p['memk']], p['form'], p['parts'], vals)))
         s = Slot('put', q, sl, keys, vals, recs, ln, p)
         s.isrec = v.isrec
+        self.posted_list.append(s)
+        self.posted = max(self.posted, recs)
         self.replay_order[q].append(ln)
         self.slots[q][sl] = s
         for k in keys:
@@ -671,6 +670,8 @@ class Program:
         self.pend[q] -= set(s.keys)
         del self.slots[q][s.slot]
         self.replay_order[q].remove(s.line)
+        self.posted_list.remove(s)
+        self.posted = max([x.recs for x in self.posted_list] + [0])
         if s.recs > self.dview[q]:
             # ncbbp->recdimsize was raised when the request was logged and is never lowered
             self.bbextra[q] = max(self.bbextra[q], s.recs)
@@ -698,8 +699,10 @@ class Program:
             return False              # BB shows its own pending records early; compared after flushes only
         if not any(l == 0 for _, l in self.s.dims):
             return False              # no unlimited dimension
+        # the burst-buffer driver may complete a posted nonblocking put at any flush before its wait: a rank may
+        # legitimately see up to the largest record of any put posted so far
         ln = self.emit('* inq_numrecs 0', kind='inq', expect=list(self.dview), extra=list(self.bbextra), lag=self.lag,
-                       expect_bb=[max(x, self.bbearly) for x in self.dview])
+                       upper=max(self.posted, max(self.dview)))
         self.ops.append('OInq %d' % ln)
         self.stats['inq'] += 1
         return True
